@@ -425,3 +425,27 @@ Fixpoint run_fair (n : nat) (s : state) : state :=
            | None => s
            end
   end.
+
+(* ---------- distance to the source (convergence measure) ---------- *)
+(* events possible while the source is frozen and serves only what is on its chain (requests may
+   still fail or be slow) *)
+Definition honest (e : event) : bool :=
+  match e with
+  | SrcExtend | SrcReorg _ | FetchCorrupt _ | FetchStaleHead _ => false
+  | _ => true
+  end.
+Definition bad (s : state) : nat := length (filter (fun b => negb (memb b (src s))) (loc s)).
+Definition todo (s : state) : nat := length (filter (fun b => negb (memb b (loc s))) (src s)).
+Definition dist (s : state) : nat := (bad s + todo s)%nat.
+
+(* the events the fair scheduler picks (for building witnesses) *)
+Fixpoint sched_trace (n : nat) (s : state) : list event :=
+  match n with
+  | O => []
+  | S k =>
+      if converged s then []
+      else match sched s with
+           | Some e => match step s e with Some s' => e :: sched_trace k s' | None => [] end
+           | None => []
+           end
+  end.
